@@ -4,6 +4,7 @@ import (
 	"encoding/json"
 	"fmt"
 	"reflect"
+	"runtime"
 	"sort"
 	"time"
 
@@ -20,6 +21,10 @@ var timeT = reflect.TypeOf(time.Time{})
 
 // addrs collects the addresses of every pointer target, slice backing array
 // and map reachable through exported fields.
+// pins keeps every container whose address was collected reachable: an
+// address is only meaningful while its memory cannot be reused.
+var pins []interface{}
+
 func addrs(root interface{}) map[uintptr]string {
 	out := map[uintptr]string{}
 	var walk func(v reflect.Value, path string, top bool)
@@ -31,6 +36,9 @@ func addrs(root interface{}) map[uintptr]string {
 			}
 			if !top && v.Type().Elem().Size() > 0 {
 				out[v.Pointer()] = path
+				if v.CanInterface() {
+					pins = append(pins, v.Interface())
+				}
 			}
 			walk(v.Elem(), path, false)
 		case reflect.Interface:
@@ -53,6 +61,9 @@ func addrs(root interface{}) map[uintptr]string {
 			}
 			if v.Cap() > 0 && v.Type().Elem().Size() > 0 {
 				out[v.Pointer()] = path + "[]"
+				if v.CanInterface() {
+					pins = append(pins, v.Interface())
+				}
 			}
 			for i := 0; i < v.Len(); i++ {
 				walk(v.Index(i), fmt.Sprintf("%s[%d]", path, i), false)
@@ -66,6 +77,9 @@ func addrs(root interface{}) map[uintptr]string {
 				return
 			}
 			out[v.Pointer()] = path + "{}"
+			if v.CanInterface() {
+				pins = append(pins, v.Interface())
+			}
 			it := v.MapRange()
 			for it.Next() {
 				walk(it.Value(), fmt.Sprintf("%s{%v}", path, it.Key()), false)
@@ -330,6 +344,13 @@ func runC14(k int, rng *Rng) CaseResult {
 			w.fail("read-error", "file", "-", "no object file after a completed write")
 			break
 		}
+		// address sets are only comparable while all the objects are alive
+		// (a collected object's memory can be reused by a later read)
+		runtime.KeepAlive(x)
+		runtime.KeepAlive(r1)
+		runtime.KeepAlive(r2)
+		runtime.KeepAlive(pins)
+		pins = nil
 	}
 	var sample interface{}
 	if k < sampleMax {
